@@ -212,6 +212,22 @@ fn level1(ctx: &Ctx, report: &mut Report) -> (usize, usize, usize, usize, Vec<se
     (states, transitions, max_cap, max_chain, samples)
 }
 
+const LONG40: &str = "abcdefghijklmnopqrstuvwxyz0123456789ABCD";
+const LONG70: &str = "The quick brown fox jumps over the lazy dog, twice: 0123456789 ABCDEFG";
+
+fn long_producers(target: &str) -> Vec<String> {
+    let n = target.len();
+    let mut v = vec![format!("\"{}\"", target), format!("\"{}\" + \"{}\"", &target[..n / 2], &target[n / 2..])];
+    for off in [1usize, 3, 4, 7, 8, 9] {
+        let pad: String = "_".repeat(off);
+        v.push(format!("\"{}{}__\"[{}..{}]", pad, target, off, off + n));
+    }
+    v.push(format!("\"q|{}|q\".split(\"|\")[1]", target));
+    v.push(format!("\"#{}#{}\".replace(\"#\", \"\")", &target[..5], &target[5..]));
+    v.push(format!("\"${{\"{}\"}}{}\"", &target[..7], &target[7..]));
+    v
+}
+
 fn level2(ctx: &Ctx, report: &mut Report) -> (usize, usize) {
     let thorough = ctx.thorough();
     // (target, producers as source expressions)
@@ -235,6 +251,10 @@ fn level2(ctx: &Ctx, report: &mut Report) -> (usize, usize) {
         ("12", vec!["\"12\"".into(), "String.from(12)".into(), "\"${12}\"".into(), "\"1\" + \"2\"".into(), "String.from(6 * 2)".into(), "\"${1}${2}\"".into()]),
         ("true", vec!["\"true\"".into(), "String.from(true)".into(), "\"${1 == 1}\"".into(), "\"tr\" + \"ue\"".into()]),
         ("nil", vec!["\"nil\"".into(), "String.from(nil)".into(), "\"${nil}\"".into()]),
+        // long strings (40 and 70 bytes: past any length at which a hash function might switch to working
+        // on words or blocks), cut out of longer ones at every offset from 1 to 9
+        (LONG40, long_producers(LONG40)),
+        (LONG70, long_producers(LONG70)),
         // strings the interpreter itself makes: the messages of the errors it raises, as handlers see them
         (
             "Vec index out of bounds.",
@@ -508,7 +528,7 @@ pub fn run(ctx: &Ctx) -> Report {
     report.cov("evaluations", json!(transitions + n2));
     report.cov("distinct_nontrivial", json!(states + n2));
     report.cov("exhaustive", json!(true));
-    report.cov("rule", json!("level 1: breadth-first search over every sequence of intern/probe operations on keys with designed hashes (collisions in the low 2/3/4 bits, an identical-full-hash pair, the empty string, fillers) up to the depth bound; a state is the real table's slot array; every transition is executed on the real table (fresh table, history replayed) and compared with a reference map; invariants checked in every state. level 2: every (sampled in quick: half of the) ordered pair of producers of each target string with k fresh strings created before and between, k over the filler set: equality, map selection, tuple-key selection, inequality of one-byte-different strings; a global defined under a host-created name; the targets include strings the interpreter itself makes (messages of the errors it raises, as a handler sees them). level 3: growth at every size - after n = 0..N filler keys of two families each of eight trigger keys (hashes chosen against the table's current capacity) is interned on a fresh copy of the real table, the whole slot array is compared with the reference and the invariants, and after an insertion that grew the table the key, the first, the middle and the last filler are looked up again. level 4: ladders of n strings produced twice by different producers through the language (compared and used as map keys at once and again at the end), collecting at every allocation for the short ones, and programs declaring and reading up to 1600/3200 global names."));
+    report.cov("rule", json!("level 1: breadth-first search over every sequence of intern/probe operations on keys with designed hashes (collisions in the low 2/3/4 bits, an identical-full-hash pair, the empty string, fillers) up to the depth bound; a state is the real table's slot array; every transition is executed on the real table (fresh table, history replayed) and compared with a reference map; invariants checked in every state. level 2: every (sampled in quick: half of the) ordered pair of producers of each target string with k fresh strings created before and between, k over the filler set: equality, map selection, tuple-key selection, inequality of one-byte-different strings; a global defined under a host-created name; the targets include two long strings (40 and 70 bytes) cut out of longer ones at offsets 1-9, and strings the interpreter itself makes (messages of the errors it raises, as a handler sees them). level 3: growth at every size - after n = 0..N filler keys of two families each of eight trigger keys (hashes chosen against the table's current capacity) is interned on a fresh copy of the real table, the whole slot array is compared with the reference and the invariants, and after an insertion that grew the table the key, the first, the middle and the last filler are looked up again. level 4: ladders of n strings produced twice by different producers through the language (compared and used as map keys at once and again at the end), collecting at every allocation for the short ones, and programs declaring and reading up to 1600/3200 global names."));
     report.cov("bounds", json!({"level1_depth": if ctx.thorough() { 10 } else { 8 }, "level1_keys": pool(ctx.thorough()).len(), "level2_programs": n2}));
     report.cov("level1_max_capacity_reached", json!(max_cap));
     report.cov("level1_longest_probe_displacement", json!(max_chain));
